@@ -1,0 +1,40 @@
+//go:build verif
+
+package interp
+
+// Contracts for property C19 (the debugger does not change behaviour; breakpoints are reported).
+// Checked by /verif/govc. Comments only.
+
+//@ pred lineFlag(n): n.debug != nil && n.debug.breakOnLine
+//@ pred callFlag(n): n.debug != nil && n.debug.breakOnCall
+
+//@ func (n *node) setBreakOnLine(v)
+//@   props C19
+//@   opt safety = off
+//@   requires n != nil
+//@   ensures set: lineFlag(n) == v
+//@   ensures call-flag-kept: callFlag(n) == old(callFlag(n))
+//@   canary callFlag(n) == v
+
+//@ func (n *node) setBreakOnCall(v)
+//@   props C19
+//@   opt safety = off
+//@   requires n != nil
+//@   ensures set: callFlag(n) == v
+//@   ensures line-flag-kept: lineFlag(n) == old(lineFlag(n))
+//@   canary lineFlag(n) == v
+
+// The node visitor of SetBreakpoints: the line-breakpoint pass never touches a function
+// breakpoint, and the function pass never touches a line breakpoint of the visited node.
+//@ lit Debugger.SetBreakpoints calls:setBreakOnLine (n) (cont)
+//@   props C19
+//@   opt safety = off
+//@   opt loops = havoc
+//@   opt opaque-calls = getExec
+//@   opt opaque-havoc = none
+//@   opt inline = setBreakOnLine, setBreakOnCall
+//@   requires n != nil && n.start != nil && n.start != n
+//@   requires [assume] nodes-own-their-debug-record: n.debug == nil || n.debug != n.start.debug
+//@   ensures line-pass-keeps-function-breakpoint: callFlag(n) == old(callFlag(n))
+//@   ensures function-pass-keeps-line-breakpoint: !(len(setup.lines) > 0) ==> lineFlag(n) == old(lineFlag(n))
+//@   canary lineFlag(n) == old(lineFlag(n))
